@@ -118,8 +118,10 @@ def r2(tree, prog, rep):
             rep.check("C11.R2", "Manager %s.%s leaves the racing state by stopping its Connector" % (r.src, r.inp), bool(stops), r.site,
                       key="C11.R2:Manager[%s].%s:stop-on-leave" % (r.src, r.inp))
     own, foreign = class_writers(tree, "Manager", "_connection")
-    ok = not foreign and sorted(w.fn for w in own) == ["__attrs_post_init__", "_stop_using_connection", "connector_connection_made"]
-    rep.check("C11.R2", "Manager._connection is written only by the constructor, connector_connection_made and _stop_using_connection", ok, MGR,
+    # a connection comes into use in one place only; forgetting it (= None) can happen anywhere without putting a second one into use
+    setters = [w for w in own + foreign if not (w.kind == "assign" and is_const(w.value, None))]
+    ok = not foreign and [w.fn for w in setters] == ["connector_connection_made"] and any(w.fn == "_stop_using_connection" for w in own)
+    rep.check("C11.R2", "Manager._connection is set to a connection only by connector_connection_made (and cleared by _stop_using_connection)", ok, MGR,
               key="C11.R2:_connection-writers", what="writers: %s" % [w.brief() for w in own + foreign])
     sc = tree.func(MGR, "Manager", "_start_connecting")
     g = build(sc)
@@ -290,8 +292,13 @@ def r6(tree, prog, rep):
     # the leader input only when the role is known LEADER (or known not FOLLOWER), and the other way round
     lead_ok = not g.only_when(lead, is_leader, True) or not g.only_when(lead, is_follower, False)
     foll_ok = not g.only_when(foll, is_leader, False) or not g.only_when(foll, is_follower, True)
+    # (a guard `if self._connection is None: return` in front is the same function for every call the product can make: the
+    # two-party product decides whether a loss can ever be reported while no connection is in use - C11.R8)
+    from ..cfg import none_atom
+    n_edges, guarded_ok = g.when_must_pass(none_atom(lambda e: is_self_attr(e, "_connection")), False, stop)
+    stop_ok = g.must_pass(stop) or (n_edges > 0 and guarded_ok)
     ok = len(lead) == 1 and len(foll) == 1 and lead_ok and foll_ok \
-        and len(stop) == 1 and g.must_pass(stop) and not g.precedes(stop, lead + foll)
+        and len(stop) == 1 and stop_ok and not g.precedes(stop, lead + foll)
     rep.check("C11.R6", "connector_connection_lost stops using the connection, then feeds the role-specific lost input", ok, site(cl2, MGR),
               key="C11.R6:connector_connection_lost")
 
